@@ -162,6 +162,7 @@ func runC03(c *core.Ctx) {
 	pkgs := loadStd(c, cb)
 	pkgs = append(pkgs, loadCorpus(c, cb, "lowering")...)
 	checkIterates(c, pkgs, "C03")
+	runIOBrackets(c, pkgs)
 	iterateControls(c, cb)
 
 	// (3) shared pre-condition tables.
